@@ -93,6 +93,9 @@ type history struct {
 	ListFirst int      `json:"ops_before_start,omitempty"`
 	// consumers of lookup answers (mode "consume")
 	Pipe *pipeConf `json:"pipeline,omitempty"`
+	// mode "burst": lookups through IpSink/InfoSource under back-pressure, interleaved with Ops
+	Script  []bstep `json:"script,omitempty"`
+	Pattern string  `json:"pattern,omitempty"`
 }
 
 // ---------------------------------------------------------------------------------------------------
